@@ -27,6 +27,7 @@ type foreignSpec struct {
 	RGSplit []int         `json:"rgsplit"`
 	Cols    []foreignCol  `json:"cols"`
 	Extras  bool          `json:"extras"`
+	FileOff string        `json:"fileoff"`
 	Seed    uint64        `json:"seed"`
 	Unsup   *struct {
 		RG      int    `json:"rg"`
@@ -166,7 +167,7 @@ func runForeign(c jobCase) {
 	leafPaths(schemaRoot, nil, nil, &lps)
 	// canonical rows (tokens reduced modulo the pool sizes, as the reader will report them)
 	ctx := buildCtx{poff: c.Poff}
-	spec := pq.FileSpec{Extras: fs.Extras}
+	spec := pq.FileSpec{Extras: fs.Extras, FileOffset: fs.FileOff}
 	spec.Schema = []pq.SchemaElem{{Name: "schema", Type: -1, CType: -1, Rep: -1, NumChildren: len(schemaRoot)}}
 	schemaElems(schemaRoot, &spec.Schema)
 	colEntries := make([][][]int, len(cols))
